@@ -457,6 +457,12 @@ fn c17_thresholds(st: &Stats, tier: Tier, _cfgs: &[String]) -> Vec<String> {
         }
     }
     need(st, &mut u, "debug.variants", 200);
+    for t in ["cbc/enc", "cfb-buf/dec", "ctr32be/stream", "ctr64le/core", "ctr128be/core", "beltctr/stream", "ofb/core", "ige/dec"] {
+        need(st, &mut u, &format!("zeroize.state-map.saw-state.{}", t), 3);
+        if !cfg!(feature = "zeroize") {
+            need(st, &mut u, &format!("zeroize.state-map.after-drop-nonzero.{}", t), 3);
+        }
+    }
     u
 }
 
